@@ -397,6 +397,10 @@ func (b *batch) exec(argv []string, wd string) outcome {
 	}
 	if crash, _ := lib.GoCrash(r); crash {
 		o.Crash = "go-crash@" + lib.PanicSite(r.Stderr)
+		if strings.Contains(r.Stderr, "goroutine stack exceeds") {
+			// runaway recursion: the frame that hits the limit depends on the stack layout
+			o.Crash = "go-crash:stack-overflow"
+		}
 		if r.Signal != "" {
 			o.Crash += " signal " + r.Signal
 		}
